@@ -149,23 +149,31 @@ Definition out_col (outs : list (list N * list (key * list cval))) (b : nat) (k 
   | None => []
   end.
 
-Definition run_read (fc : fconv) (card : N) (blooms : list key) (blocks : list (list event)) :=
-  read_all (fst (ingest_blocks fc card (init_store blooms) blocks)).
+Definition run_read_pre (pre : bool) (fc : fconv) (card : N) (blooms : list key) (blocks : list (list event)) :=
+  read_all (fst (ingest_blocks fc pre card (init_store blooms) blocks)).
+Definition run_read := run_read_pre false.
 
 (* {"a":7,"a":8,"z":"p"} then {"a":9,"z":"q"}, cardinality limit 2 (raw block): the second event returns a=8 *)
 Definition w_dup : list (list event) :=
   [[ev 1700000000001 [(ka, VInt 7); (ka, VInt 8); (kz, VStr [112])];
     ev 1700000000002 [(ka, VInt 9); (kz, VStr [113])]]].
 
+(* before the repair of doLogEventFilling ([pre = true]) *)
 Lemma dupkey_witness :
-  out_col (match run_read fc_w 2 [] w_dup with Some o => o | None => [] end) 0 ka = [VInt 7; VInt 8] /\
+  out_col (match run_read_pre true fc_w 2 [] w_dup with Some o => o | None => [] end) 0 ka = [VInt 7; VInt 8] /\
   colview ka (nth 0 w_dup []) = [VInt 7; VInt 9].
 Proof. vm_compute. split; reflexivity. Qed.
 
 (* the same two events with the default limit (dictionary block): the first event's 7 is gone *)
 Lemma dupkey_dict_witness :
-  out_col (match run_read fc_w 501 [] w_dup with Some o => o | None => [] end) 0 ka = [VInt 8; VInt 9].
+  out_col (match run_read_pre true fc_w 501 [] w_dup with Some o => o | None => [] end) 0 ka = [VInt 8; VInt 9].
 Proof. vm_compute. reflexivity. Qed.
+
+(* the repaired code keeps the first value of a duplicated key and nothing moves *)
+Lemma dupkey_fixed_witness :
+  out_col (match run_read fc_w 2 [] w_dup with Some o => o | None => [] end) 0 ka = [VInt 7; VInt 9] /\
+  out_col (match run_read fc_w 501 [] w_dup with Some o => o | None => [] end) 0 ka = [VInt 7; VInt 9].
+Proof. vm_compute. split; reflexivity. Qed.
 
 (* {"a":5},{"a":"007"},{"a":"1e3"} -> 5, 7, 1000.0 *)
 Definition w_numstr : list (list event) :=
@@ -194,6 +202,22 @@ Proof. vm_compute. reflexivity. Qed.
    AllSeenColumnSizes says 9; consolidateColumnTypes rewrites the block as text of other lengths *)
 Definition w_shortcut_vals : list cval := [VInt 5; VStr [97;98;99;100;101;102]; VFloat 4609434218613702656].
 Definition w_shortcut_buf : bytes := concat (map enc_val w_shortcut_vals).
+
+(* AllSeenColumnSizes of column a after the flush of one block / of the second of two blocks *)
+Definition seen_after (pre : bool) (blocks : list (list event)) (k : key) : option N :=
+  get k (st_seen (snd (ingest_blocks fc_w pre 501 (init_store []) blocks))).
+Definition w_seen_text : list (list event) :=
+  [[ev 1700000000001 [(ka, VInt 5)]; ev 1700000000002 [(ka, VStr [97;98;99;100;101;102])];
+    ev 1700000000003 [(ka, VFloat 4609434218613702656)]]].
+(* {"a":5,"b":1} flush {"b":1},{"a":6,"b":2}: column a of the second block starts with a back-filled null *)
+Definition w_seen_late : list (list event) :=
+  [[ev 1700000000001 [(ka, VInt 5); (kb, VInt 1)]];
+   [ev 1700000000002 [(kb, VInt 1)]; ev 1700000000003 [(ka, VInt 6); (kb, VInt 2)]]].
+Lemma seen_witness :
+  seen_after true w_seen_text ka = Some 9 /\ seen_after false w_seen_text ka = Some INCONSISTENT /\
+  seen_after true w_seen_late ka = Some 9 /\ seen_after false w_seen_late ka = Some INCONSISTENT /\
+  seen_after false w_seen_late kb = Some 9.
+Proof. vm_compute. repeat split; reflexivity. Qed.
 
 Lemma shortcut_witness :
   Forall (fun v => length (enc_val v) = 9%nat) w_shortcut_vals /\
@@ -670,31 +694,31 @@ Definition maybe_late (rc : N) (flag : option bool) (cw : colwip) : colwip :=
   | Some _ => cw
   end.
 
-Lemma add_field_same st k v :
-  Cs (add_field card st (k, v)) k = col_append card v (st_rc st) (maybe_late (st_rc st) (Fs st k) (Cs st k)) /\
-  Fs (add_field card st (k, v)) k = Some true.
+Lemma add_field_core_same st k v :
+  Cs (add_field_core false card st (k, v)) k = col_append card v (st_rc st) (maybe_late (st_rc st) (Fs st k) (Cs st k)) /\
+  Fs (add_field_core false card st (k, v)) k = Some true.
 Proof.
-  unfold Cs, Fs, add_field. cbn [st_cols st_inblock].
+  unfold Cs, Fs, add_field_core. cbn [st_cols st_inblock].
   rewrite get_cw_put_same, get_put_same. split; [|reflexivity].
   unfold maybe_late. destruct (get k (st_inblock st)); cbn [negb].
   - reflexivity.
   - destruct (st_rc st =? 0); reflexivity.
 Qed.
 
-Lemma add_field_other st k v k' : k <> k' ->
-  Cs (add_field card st (k, v)) k' = Cs st k' /\ Fs (add_field card st (k, v)) k' = Fs st k'.
+Lemma add_field_core_other st k v k' : k <> k' ->
+  Cs (add_field_core false card st (k, v)) k' = Cs st k' /\ Fs (add_field_core false card st (k, v)) k' = Fs st k'.
 Proof.
-  intros H. unfold Cs, Fs, add_field. cbn [st_cols st_inblock].
+  intros H. unfold Cs, Fs, add_field_core. cbn [st_cols st_inblock].
   rewrite get_cw_put_other, get_put_other by exact H. split; reflexivity.
 Qed.
 
-Lemma add_field_misc st kv :
-  st_rc (add_field card st kv) = st_rc st /\ st_ts (add_field card st kv) = st_ts st /\
-  (NoDup (map fst (st_inblock st)) -> NoDup (map fst (st_inblock (add_field card st kv)))) /\
-  (NoDup (map fst (st_cols st)) -> NoDup (map fst (st_cols (add_field card st kv)))) /\
-  (forall k, mem k (st_ris (add_field card st kv)) = true -> mem k (st_ris st) = true \/ (k = fst kv /\ is_num (snd kv) = true)).
+Lemma add_field_core_misc st kv :
+  st_rc (add_field_core false card st kv) = st_rc st /\ st_ts (add_field_core false card st kv) = st_ts st /\
+  (NoDup (map fst (st_inblock st)) -> NoDup (map fst (st_inblock (add_field_core false card st kv)))) /\
+  (NoDup (map fst (st_cols st)) -> NoDup (map fst (st_cols (add_field_core false card st kv)))) /\
+  (forall k, mem k (st_ris (add_field_core false card st kv)) = true -> mem k (st_ris st) = true \/ (k = fst kv /\ is_num (snd kv) = true)).
 Proof.
-  destruct kv as [k v]. unfold add_field. cbn [st_rc st_ts st_inblock st_cols st_ris fst snd].
+  destruct kv as [k v]. unfold add_field_core. cbn [st_rc st_ts st_inblock st_cols st_ris fst snd].
   repeat split; auto using put_keys_nodup.
   intros k0 H. destruct (is_num v) eqn:Ev.
   - apply mem_add in H as [H|H]; auto.
@@ -704,38 +728,66 @@ Proof.
   - rewrite andb_false_r in H. auto.
 Qed.
 
-(* the loop over the event's (column, value) pairs, seen from column k *)
-Lemma fold_fields e : forall st, nodup_keys e = true ->
-  let st1 := fold_left (add_field card) e st in
+Definition flag_true (o : option bool) : bool := match o with Some true => true | _ => false end.
+
+Lemma add_field_skip st k v : flag_true (Fs st k) = true -> add_field false card st (k, v) = st.
+Proof. unfold add_field, Fs. cbn [fst negb andb]. unfold flag_true. intros H. destruct (get k (st_inblock st)) as [[|]|]; try discriminate. reflexivity. Qed.
+
+Lemma add_field_go st k v : flag_true (Fs st k) = false ->
+  add_field false card st (k, v) = add_field_core false card st (k, v).
+Proof. unfold add_field, Fs. cbn [fst negb andb]. unfold flag_true. intros H. destruct (get k (st_inblock st)) as [[|]|]; try discriminate; reflexivity. Qed.
+
+(* the loop over the event's (column, value) pairs, seen from column k: the first value of the
+   column in this event is written, later ones (duplicate key) are skipped *)
+Lemma fold_fields e : forall st,
+  let st1 := fold_left (add_field false card) e st in
   (forall k, (Cs st1 k, Fs st1 k) =
      match get k e with
-     | Some v => (col_append card v (st_rc st) (maybe_late (st_rc st) (Fs st k) (Cs st k)), Some true)
+     | Some v => if flag_true (Fs st k) then (Cs st k, Fs st k)
+                 else (col_append card v (st_rc st) (maybe_late (st_rc st) (Fs st k) (Cs st k)), Some true)
      | None => (Cs st k, Fs st k)
      end) /\
   st_rc st1 = st_rc st /\ st_ts st1 = st_ts st /\
   (NoDup (map fst (st_inblock st)) -> NoDup (map fst (st_inblock st1))) /\
   (NoDup (map fst (st_cols st)) -> NoDup (map fst (st_cols st1))) /\
-  (forall k, mem k (st_ris st1) = true -> mem k (st_ris st) = true \/ exists v, In (k, v) e /\ is_num v = true).
+  (forall k, mem k (st_ris st1) = true ->
+     mem k (st_ris st) = true \/ (flag_true (Fs st k) = false /\ exists v, get k e = Some v /\ is_num v = true)).
 Proof.
-  induction e as [|[k0 v0] r IH]; intros st Hn; cbn [fold_left].
+  induction e as [|[k0 v0] r IH]; intros st; cbn [fold_left].
   - cbn. repeat split; auto.
-  - cbn [nodup_keys] in Hn. apply andb_true_iff in Hn as [Hn1 Hn2]. apply negb_true_iff in Hn1.
-    destruct (IH (add_field card st (k0, v0)) Hn2) as (I1 & I2 & I3 & I4 & I5 & I6).
-    destruct (add_field_misc st (k0, v0)) as (M1 & M2 & M3 & M4 & M5).
-    cbn zeta. repeat split.
-    + intros k. rewrite I1. cbn [get].
-      destruct (bytes_eqb k0 k) eqn:E.
-      * apply bytes_eqb_eq in E. subst k. rewrite (nodup_get_none k0 r Hn1).
-        destruct (add_field_same st k0 v0) as [A1 A2]. rewrite A1, A2. reflexivity.
-      * assert (Hne : k0 <> k) by (intro; subst; rewrite bytes_eqb_refl in E; discriminate).
-        destruct (add_field_other st k0 v0 k Hne) as [A1 A2]. rewrite A1, A2, M1. reflexivity.
-    + congruence.
-    + congruence.
-    + auto.
-    + auto.
-    + intros k H. destruct (I6 k H) as [H1|[v [H1 H2]]].
-      * destruct (M5 k H1) as [H3|[H3 H4]]; auto. cbn [fst snd] in *. subst. right. exists v0. cbn. auto.
-      * right. exists v. cbn. auto.
+  - destruct (flag_true (Fs st k0)) eqn:Efl.
+    + (* duplicate of a column already written by this event: skipped *)
+      rewrite (add_field_skip st k0 v0 Efl).
+      destruct (IH st) as (I1 & I2 & I3 & I4 & I5 & I6).
+      cbn zeta. repeat split; auto.
+      * intros k. rewrite I1. cbn [get].
+        destruct (bytes_eqb k0 k) eqn:E; [|reflexivity].
+        apply bytes_eqb_eq in E. subst k. rewrite Efl. destruct (get k0 r); reflexivity.
+      * intros k H. destruct (I6 k H) as [H1|(H1 & v & H2 & H3)]; auto.
+        right. split; auto. exists v. split; auto. cbn [get].
+        destruct (bytes_eqb k0 k) eqn:E; auto. apply bytes_eqb_eq in E. subst k. congruence.
+    + rewrite (add_field_go st k0 v0 Efl).
+      destruct (IH (add_field_core false card st (k0, v0))) as (I1 & I2 & I3 & I4 & I5 & I6).
+      destruct (add_field_core_misc st (k0, v0)) as (M1 & M2 & M3 & M4 & M5).
+      destruct (add_field_core_same st k0 v0) as [A1 A2].
+      cbn zeta. repeat split.
+      * intros k. rewrite I1. cbn [get].
+        destruct (bytes_eqb k0 k) eqn:E.
+        -- apply bytes_eqb_eq in E. subst k. rewrite A2, Efl. cbn [flag_true].
+           rewrite A1. destruct (get k0 r); reflexivity.
+        -- assert (Hne : k0 <> k) by (intro; subst; rewrite bytes_eqb_refl in E; discriminate).
+           destruct (add_field_core_other st k0 v0 k Hne) as [B1 B2]. rewrite B1, B2, M1. reflexivity.
+      * congruence.
+      * congruence.
+      * auto.
+      * auto.
+      * intros k H. destruct (I6 k H) as [H1|(H1 & v & H2 & H3)].
+        -- destruct (M5 k H1) as [H3|[H3 H4]]; auto. cbn [fst snd] in *. subst k.
+           right. split; auto. exists v0. cbn [get]. rewrite bytes_eqb_refl. auto.
+        -- destruct (bytes_eq_dec k0 k) as [<-|Hne].
+           ++ rewrite A2 in H1. discriminate.
+           ++ destruct (add_field_core_other st k0 v0 k Hne) as [B1 B2]. rewrite B2 in H1.
+              right. split; auto. exists v. split; auto. cbn [get]. rewrite (bytes_eqb_neq k0 k Hne). exact H2.
 Qed.
 
 (* the back-fill loop at the end of the event *)
@@ -787,26 +839,28 @@ Definition col_event (k : key) (rc : N) (e : fields) (s : colwip * option bool) 
     end
   end.
 
-Lemma add_event_spec st e : nodup_keys (ev_fields e) = true -> NoDup (map fst (st_inblock st)) ->
-  let st' := add_event card st e in
+Lemma add_event_spec st e : (forall k, Fs st k <> Some true) -> NoDup (map fst (st_inblock st)) ->
+  let st' := add_event false card st e in
   (forall k, (Cs st' k, Fs st' k) = col_event k (st_rc st) (ev_fields e) (Cs st k, Fs st k)) /\
   st_rc st' = st_rc st + 1 /\ st_ts st' = st_ts st ++ [ev_ts e] /\
   NoDup (map fst (st_inblock st')) /\
   (NoDup (map fst (st_cols st)) -> NoDup (map fst (st_cols st'))) /\
   (forall k, mem k (st_ris st') = true -> mem k (st_ris st) = true \/ is_num (fget k (ev_fields e)) = true) /\
-  st_blooms st' = st_blooms (fold_left (add_field card) (ev_fields e) st).
+  st_blooms st' = st_blooms (fold_left (add_field false card) (ev_fields e) st).
 Proof.
-  intros Hn Hnd. unfold add_event.
-  destruct (fold_fields (ev_fields e) st Hn) as (I1 & I2 & I3 & I4 & I5 & I6).
-  set (st1 := fold_left (add_field card) (ev_fields e) st) in *.
+  intros Hfl Hnd. unfold add_event.
+  destruct (fold_fields (ev_fields e) st) as (I1 & I2 & I3 & I4 & I5 & I6).
+  set (st1 := fold_left (add_field false card) (ev_fields e) st) in *.
   pose proof (end_backfill_spec (st_rc st1) (st_total st1) (st_inblock st1) (st_cols st1) (st_seen st1) (I4 Hnd)) as EB.
   destruct (end_backfill card (st_rc st1) (st_total st1) (st_inblock st1) (st_cols st1) (st_seen st1)) as [[inb cols] seen].
   destruct EB as (E1 & E2 & E3 & E4).
   rewrite I2 in E2.
+  assert (Hft : forall k, flag_true (Fs st k) = false).
+  { intros k. specialize (Hfl k). unfold flag_true. destruct (Fs st k) as [[|]|]; congruence. }
   cbn zeta. cbn [st_rc st_ts st_inblock st_cols st_ris st_blooms].
   repeat split.
   - intros k. unfold Cs, Fs. cbn [st_cols st_inblock]. rewrite E1, E2.
-    specialize (I1 k). unfold Cs, Fs in I1. unfold col_event. cbn [fst snd].
+    specialize (I1 k). rewrite (Hft k) in I1. unfold Cs, Fs in I1. unfold col_event. cbn [fst snd].
     destruct (get k (ev_fields e)) as [v|].
     + inversion I1 as [[A1 A2]]. rewrite A2. reflexivity.
     + inversion I1 as [[A1 A2]]. rewrite A2. destruct (get k (st_inblock st)) as [[|]|]; reflexivity.
@@ -814,8 +868,8 @@ Proof.
   - rewrite I3. reflexivity.
   - rewrite E3. apply I4. exact Hnd.
   - intros H. apply E4. apply I5. exact H.
-  - intros k H. destruct (I6 k H) as [H1|[v [H1 H2]]]; auto.
-    right. unfold fget. rewrite (In_get_nodup _ _ _ Hn H1). exact H2.
+  - intros k H. destruct (I6 k H) as [H1|(_ & v & H1 & H2)]; auto.
+    right. unfold fget. rewrite H1. exact H2.
 Qed.
 
 End Store.
@@ -1182,16 +1236,16 @@ Proof.
 Qed.
 
 Lemma event_ok_parts e : event_ok e = true ->
-  nodup_keys (ev_fields e) = true /\ Forall (fun kv => ingv (snd kv)) (ev_fields e) /\ ts_ok (ev_ts e) = true.
+  Forall (fun kv => ingv (snd kv)) (ev_fields e) /\ ts_ok (ev_ts e) = true.
 Proof.
-  unfold event_ok. intros H. apply andb_true_iff in H as [H H3]. apply andb_true_iff in H as [H1 H2].
-  repeat split; auto. apply Forall_forall. rewrite forallb_forall in H2. exact H2.
+  unfold event_ok. intros H. apply andb_true_iff in H as [H2 H3].
+  split; auto. apply Forall_forall. rewrite forallb_forall in H2. exact H2.
 Qed.
 
-Lemma binv_step st evs e : BInv st evs -> event_ok e = true -> BInv (add_event card st e) (evs ++ [e]).
+Lemma binv_step st evs e : BInv st evs -> event_ok e = true -> BInv (add_event false card st e) (evs ++ [e]).
 Proof.
-  intros [B1 B2 B3 B4 B5 B6 B7] Hok. destruct (event_ok_parts e Hok) as (Hn & _ & _).
-  destruct (add_event_spec card st e Hn B5) as (A1 & A2 & A3 & A4 & A5 & A6 & _).
+  intros [B1 B2 B3 B4 B5 B6 B7] Hok.
+  destruct (add_event_spec card st e B2 B5) as (A1 & A2 & A3 & A4 & A5 & A6 & _).
   assert (Hcv : forall k, colview k (evs ++ [e]) = colview k evs ++ [fget k (ev_fields e)])
     by (intros k; unfold colview; rewrite map_app; reflexivity).
   assert (Hlen : forall k, length (colview k evs) = length evs) by (intros k; apply map_length).
@@ -1212,7 +1266,7 @@ Proof.
 Qed.
 
 Lemma binv_fold evs : forall st done, BInv st done -> Forall (fun e => event_ok e = true) evs ->
-  BInv (fold_left (add_event card) evs st) (done ++ evs).
+  BInv (fold_left (add_event false card) evs st) (done ++ evs).
 Proof.
   induction evs as [|e evs IH]; intros st done B H; cbn [fold_left].
   - rewrite app_nil_r. exact B.
@@ -1224,7 +1278,7 @@ Qed.
 Lemma colview_ingv k evs : Forall (fun e => event_ok e = true) evs -> Forall ingv (colview k evs).
 Proof.
   intros H. unfold colview. rewrite Forall_map. eapply Forall_impl; [|exact H].
-  intros e He. destruct (event_ok_parts e He) as (_ & Hv & _).
+  intros e He. destruct (event_ok_parts e He) as (Hv & _).
   unfold fget. destruct (get k (ev_fields e)) as [v|] eqn:E; [|reflexivity].
   apply get_In in E. rewrite Forall_forall in Hv. apply (Hv (k, v) E).
 Qed.
@@ -1249,12 +1303,12 @@ Proof. destruct vs; [congruence|]. intros _. apply concat_enc_nonempty. Qed.
 
 (* flush of a block whose events satisfy the guard, and the match-all read of that block *)
 Theorem block_roundtrip st evs : block_start st -> block_guard evs ->
-  let '(fb, st2) := flush_block fc card (fold_left (add_event card) evs st) in
+  let '(fb, st2) := flush_block fc false card (fold_left (add_event false card) evs st) in
   (exists out, read_block fb = Some out /\ block_result_ok evs out) /\ block_start st2.
 Proof.
   intros Hs (Hne & Hlen & Hok & Hguard).
   pose proof (binv_fold evs st [] (binv_start st Hs) Hok) as B. cbn [app] in B.
-  set (st1 := fold_left (add_event card) evs st) in *.
+  set (st1 := fold_left (add_event false card) evs st) in *.
   destruct B as [B1 B2 B3 B4 B5 B6 B7].
   unfold flush_block.
   assert (Hks : NoDup (map fst (st_inblock st1))) by exact B5.
@@ -1353,17 +1407,17 @@ Qed.
 
 (* ---------- a whole segment: any number of blocks ---------- *)
 Theorem segment_roundtrip blocks : forall st, block_start st -> Forall block_guard blocks ->
-  exists outs, read_all (fst (ingest_blocks fc card st blocks)) = Some outs /\
+  exists outs, read_all (fst (ingest_blocks fc false card st blocks)) = Some outs /\
                Forall2 block_result_ok blocks outs.
 Proof.
   induction blocks as [|b r IH]; intros st Hs Hg; cbn [ingest_blocks].
   - exists []. split; [reflexivity | constructor].
   - inversion Hg as [|? ? Hb Hr]; subst.
     pose proof (block_roundtrip st b Hs Hb) as BR.
-    destruct (flush_block fc card (fold_left (add_event card) b st)) as [fb st1].
+    destruct (flush_block fc false card (fold_left (add_event false card) b st)) as [fb st1].
     destruct BR as [(out & Ho & Hok) Hs1].
     destruct (IH st1 Hs1 Hr) as (outs & Ha & Hf).
-    destruct (ingest_blocks fc card st1 r) as [fbs st2]. cbn [fst] in *.
+    destruct (ingest_blocks fc false card st1 r) as [fbs st2]. cbn [fst] in *.
     exists (out :: outs). split.
     + cbn [read_all]. rewrite Ho, Ha. reflexivity.
     + constructor; auto.
@@ -1407,7 +1461,7 @@ Theorem store_roundtrip_guarded (fc : fconv) :
   (forall b, N.of_nat (length (ff fc b)) < 65533) ->
   forall card, card < 65536 -> forall blooms (blocks : list (list event)),
   Forall (fun evs => block_ok fc evs = true) blocks ->
-  exists outs, read_all (fst (ingest_blocks fc card (init_store blooms) blocks)) = Some outs /\
+  exists outs, read_all (fst (ingest_blocks fc false card (init_store blooms) blocks)) = Some outs /\
     Forall2 (fun evs out =>
                fst out = map ev_ts evs /\
                forall k, col_allowed fc (colview k evs)
@@ -1451,22 +1505,42 @@ Proof.
   change (length w_shortcut_vals) with 3%nat. fold w_shortcut_buf. rewrite H3, H4. discriminate.
 Qed.
 
-Lemma store_roundtrip_refuted_dupkey :
+(* PRE-FIX documentation: before doLogEventFilling skipped the second value of a duplicated key *)
+Lemma prefix_dupkey_refuted :
   exists fc card blocks outs,
-    Forall (Forall (fun e => forallb (fun kv => ingest_val (snd kv)) (ev_fields e) && ts_ok (ev_ts e) = true)) blocks /\
-    read_all (fst (ingest_blocks fc card (init_store []) blocks)) = Some outs /\
+    Forall (Forall (fun e => event_ok e = true)) blocks /\
+    read_all (fst (ingest_blocks fc true card (init_store []) blocks)) = Some outs /\
     exists k, out_col outs 0 k = [VInt 7; VInt 8] /\ colview k (nth 0 blocks []) = [VInt 7; VInt 9].
 Proof.
   exists fc_w, 2, w_dup.
-  destruct (run_read fc_w 2 [] w_dup) as [o|] eqn:E; [|vm_compute in E; discriminate].
+  destruct (run_read_pre true fc_w 2 [] w_dup) as [o|] eqn:E; [|vm_compute in E; discriminate].
   exists o. split; [repeat constructor|]. split; [exact E|].
   exists ka. pose proof dupkey_witness as W. rewrite E in W. exact W.
+Qed.
+
+(* PRE-FIX documentation: AllSeenColumnSizes kept a constant record length for a column whose block
+   was rewritten as text, or that was back-filled when it first appeared in a later block *)
+Lemma prefix_seen_size_refuted :
+  (exists blocks k, get k (st_seen (snd (ingest_blocks fc_w true 501 (init_store []) blocks))) = Some 9 /\
+     exists fb blk recs, nth_error (fst (ingest_blocks fc_w true 501 (init_store []) blocks)) 0 = Some fb /\
+       get k (fb_cols fb) = Some blk /\ read_col INCONSISTENT 3 blk = Some recs /\
+       map (@length N) recs = [4; 9; 6]%nat /\ read_col 9 3 blk = None) /\
+  (exists blocks k, get k (st_seen (snd (ingest_blocks fc_w true 501 (init_store []) blocks))) = Some 9 /\
+     exists fb blk recs, nth_error (fst (ingest_blocks fc_w true 501 (init_store []) blocks)) 1 = Some fb /\
+       get k (fb_cols fb) = Some blk /\ read_col INCONSISTENT 2 blk = Some recs /\
+       map (@length N) recs = [1; 9]%nat).
+Proof.
+  split.
+  - exists w_seen_text, ka. split; [vm_compute; reflexivity|].
+    eexists. eexists. eexists. vm_compute. repeat split; reflexivity.
+  - exists w_seen_late, ka. split; [vm_compute; reflexivity|].
+    eexists. eexists. eexists. vm_compute. repeat split; reflexivity.
 Qed.
 
 Lemma store_roundtrip_refuted_numstring :
   exists fc card blocks outs,
     Forall (Forall (fun e => event_ok e = true)) blocks /\
-    read_all (fst (ingest_blocks fc card (init_store []) blocks)) = Some outs /\
+    read_all (fst (ingest_blocks fc false card (init_store []) blocks)) = Some outs /\
     exists k, colview k (nth 0 blocks []) = [VInt 5; VStr [48;48;55]; VStr [49;101;51]] /\
               out_col outs 0 k = [VInt 5; VInt 7; VFloat 4652007308841189376].
 Proof.
@@ -1479,7 +1553,7 @@ Qed.
 Lemma store_roundtrip_refuted_bool_number :
   exists fc card blocks outs,
     Forall (Forall (fun e => event_ok e = true)) blocks /\
-    read_all (fst (ingest_blocks fc card (init_store []) blocks)) = Some outs /\
+    read_all (fst (ingest_blocks fc false card (init_store []) blocks)) = Some outs /\
     exists k, colview k (nth 0 blocks []) = [VNull; VBool true; VInt 5] /\
               out_col outs 0 k = [VNull; VStr s_true; VStr [53]].
 Proof.
@@ -1488,3 +1562,186 @@ Proof.
   exists o. split; [repeat constructor|]. split; [exact E|].
   exists ka. split; [reflexivity|]. pose proof booltext_witness as W. rewrite E in W. exact W.
 Qed.
+
+(* ================================================================== *)
+(* AllSeenColumnSizes (the constant record length handed to searches)  *)
+(* ================================================================== *)
+Definition seen_val (cur : option N) (sz total : N) : N :=
+  match cur with
+  | None => if 0 <? total then INCONSISTENT else sz
+  | Some c => if c =? INCONSISTENT then c else if c =? sz then c else INCONSISTENT
+  end.
+
+Lemma get_seen_update_same k sz total seen :
+  get k (seen_update k sz total seen) = Some (seen_val (get k seen) sz total).
+Proof.
+  unfold seen_update, seen_val. destruct (get k seen) as [c|] eqn:E.
+  - destruct (c =? INCONSISTENT); [exact E|]. destruct (c =? sz); [exact E|]. apply get_put_same.
+  - apply get_put_same.
+Qed.
+
+Lemma get_seen_update_other k k' sz total seen : k <> k' ->
+  get k' (seen_update k sz total seen) = get k' seen.
+Proof.
+  intros H. unfold seen_update. destruct (get k seen) as [c|].
+  - destruct (c =? INCONSISTENT); auto. destruct (c =? sz); auto. apply get_put_other. exact H.
+  - apply get_put_other. exact H.
+Qed.
+
+(* a constant length never changes into another constant length *)
+Lemma seen_val_mono cur sz total s : seen_val cur sz total = s -> s <> INCONSISTENT ->
+  (cur = None \/ cur = Some s) /\ sz = s.
+Proof.
+  unfold seen_val. destruct cur as [c|].
+  - destruct (c =? INCONSISTENT) eqn:E1; [apply N.eqb_eq in E1; intros; subst; contradiction|].
+    destruct (c =? sz) eqn:E2; [apply N.eqb_eq in E2; intros; subst; auto | intros; subst; contradiction].
+  - destruct (0 <? total); intros; subst; [contradiction | auto].
+Qed.
+
+Section Seen.
+Variable card : N.
+
+Definition seen_field (rc total : N) (flag : option bool) (cur : option N) (v : cval) : option N :=
+  let late := match flag with None => negb (rc =? 0) | Some _ => false end in
+  Some (seen_val (if late then Some (seen_val cur 1 total) else cur) (N.of_nat (length (enc_val v))) total).
+
+Lemma add_field_core_seen st k v :
+  get k (st_seen (add_field_core false card st (k, v))) =
+    seen_field (st_rc st) (st_total st) (Fs st k) (get k (st_seen st)) v /\
+  (forall k', k <> k' -> get k' (st_seen (add_field_core false card st (k, v))) = get k' (st_seen st)) /\
+  st_total (add_field_core false card st (k, v)) = st_total st.
+Proof.
+  unfold add_field_core, seen_field, Fs. cbn [st_seen st_total negb andb].
+  repeat split.
+  - rewrite get_seen_update_same. rewrite andb_true_r.
+    destruct (match get k (st_inblock st) with Some _ => false | None => negb (st_rc st =? 0) end).
+    + rewrite get_seen_update_same. reflexivity.
+    + reflexivity.
+  - intros k' H. rewrite get_seen_update_other by exact H. rewrite andb_true_r.
+    destruct (match get k (st_inblock st) with Some _ => false | None => negb (st_rc st =? 0) end); auto.
+    apply get_seen_update_other. exact H.
+Qed.
+
+Lemma fold_fields_seen e : forall st,
+  let st1 := fold_left (add_field false card) e st in
+  (forall k, get k (st_seen st1) =
+     match get k e with
+     | Some v => if flag_true (Fs st k) then get k (st_seen st)
+                 else seen_field (st_rc st) (st_total st) (Fs st k) (get k (st_seen st)) v
+     | None => get k (st_seen st)
+     end) /\
+  st_total st1 = st_total st.
+Proof.
+  induction e as [|[k0 v0] r IH]; intros st; cbn [fold_left].
+  - cbn. split; auto.
+  - destruct (flag_true (Fs st k0)) eqn:Efl.
+    + rewrite (add_field_skip card st k0 v0 Efl). destruct (IH st) as (I1 & I2). cbn zeta. split; auto.
+      intros k. rewrite I1. cbn [get]. destruct (bytes_eqb k0 k) eqn:E; [|reflexivity].
+      apply bytes_eqb_eq in E. subst k. rewrite Efl. destruct (get k0 r); reflexivity.
+    + rewrite (add_field_go card st k0 v0 Efl).
+      destruct (IH (add_field_core false card st (k0, v0))) as (I1 & I2).
+      destruct (add_field_core_seen st k0 v0) as (S1 & S2 & S3).
+      destruct (add_field_core_misc card st (k0, v0)) as (M1 & _).
+      destruct (add_field_core_same card st k0 v0) as [_ A2].
+      cbn zeta. split; [|rewrite I2; exact S3].
+      intros k. rewrite I1. cbn [get]. destruct (bytes_eqb k0 k) eqn:E.
+      * apply bytes_eqb_eq in E. subst k. rewrite A2, Efl. cbn [flag_true]. Show. rewrite S1.
+        destruct (get k0 r); reflexivity.
+      * assert (Hne : k0 <> k) by (intro; subst; rewrite bytes_eqb_refl in E; discriminate).
+        destruct (add_field_core_other card st k0 v0 k Hne) as [_ B2].
+        rewrite (S2 k Hne), B2, M1, S3. reflexivity.
+Qed.
+
+Lemma end_backfill_seen rc total inb : forall cols seen, NoDup (map fst inb) ->
+  let '(_, _, seen') := end_backfill card rc total inb cols seen in
+  forall k, get k seen' =
+    match get k inb with
+    | Some false => Some (seen_val (get k seen) 1 total)
+    | _ => get k seen
+    end.
+Proof.
+  induction inb as [|[k0 found] r IH]; intros cols seen Hnd; cbn [end_backfill].
+  - intros k. reflexivity.
+  - cbn [map fst] in Hnd. inversion Hnd as [|? ? Hnotin Hnd']; subst.
+    set (cs := if found then (cols, seen)
+               else (put k0 (col_append card VNull rc (get_cw k0 cols)) cols, seen_update k0 1 total seen)).
+    destruct cs as [cols1 seen1] eqn:Ecs.
+    specialize (IH cols1 seen1 Hnd').
+    destruct (end_backfill card rc total r cols1 seen1) as [[r' cols2] seen2].
+    intros k. rewrite IH. cbn [get].
+    destruct (bytes_eqb k0 k) eqn:E.
+    + apply bytes_eqb_eq in E. subst k. rewrite (get_notin_keys k0 r Hnotin).
+      unfold cs in Ecs. destruct found; inversion Ecs; subst; [reflexivity|]. apply get_seen_update_same.
+    + assert (Hne : k0 <> k) by (intro; subst; rewrite bytes_eqb_refl in E; discriminate).
+      assert (Hs : get k seen1 = get k seen).
+      { unfold cs in Ecs. destruct found; inversion Ecs; subst; auto. apply get_seen_update_other. exact Hne. }
+      rewrite Hs. reflexivity.
+Qed.
+
+(* one event, seen from the size entry of column k *)
+Definition seen_event (k : key) (rc total : N) (e : fields) (flag : option bool) (cur : option N) : option N :=
+  match get k e with
+  | Some v => seen_field rc total flag cur v
+  | None => match flag with Some false => Some (seen_val cur 1 total) | _ => cur end
+  end.
+
+Lemma add_event_seen st e : (forall k, Fs st k <> Some true) -> NoDup (map fst (st_inblock st)) ->
+  (forall k, get k (st_seen (add_event false card st e)) =
+             seen_event k (st_rc st) (st_total st) (ev_fields e) (Fs st k) (get k (st_seen st))) /\
+  st_total (add_event false card st e) = st_total st + 1.
+Proof.
+  intros Hfl Hnd. unfold add_event.
+  destruct (fold_fields card (ev_fields e) st) as (I1 & I2 & _ & I4 & _).
+  destruct (fold_fields_seen (ev_fields e) st) as (F1 & F2).
+  set (st1 := fold_left (add_field false card) (ev_fields e) st) in *.
+  pose proof (end_backfill_seen (st_rc st1) (st_total st1) (st_inblock st1) (st_cols st1) (st_seen st1) (I4 Hnd)) as EB.
+  destruct (end_backfill card (st_rc st1) (st_total st1) (st_inblock st1) (st_cols st1) (st_seen st1)) as [[inb cols] seen].
+  cbn [st_seen st_total]. split; [|rewrite F2; reflexivity].
+  intros k. rewrite EB, F1, F2. unfold seen_event.
+  assert (Hft : flag_true (Fs st k) = false).
+  { specialize (Hfl k). unfold flag_true. destruct (Fs st k) as [[|]|]; congruence. }
+  specialize (I1 k). rewrite Hft in I1. apply (f_equal snd) in I1. cbn [snd] in I1. unfold Fs in I1 at 1. rewrite I1, Hft.
+  destruct (get k (ev_fields e)) as [v|]; [reflexivity|].
+  unfold Fs. destruct (get k (st_inblock st)) as [[|]|]; reflexivity.
+Qed.
+
+(* the size entry of a column is true of the column's records in the open block *)
+Definition len_is (s : N) (v : cval) : Prop := N.of_nat (length (enc_val v)) = s.
+Definition SInv (cur : option N) (flag : option bool) (vs : list cval) : Prop :=
+  (flag <> None -> cur <> None) /\
+  (forall s, cur = Some s -> s <> INCONSISTENT -> flag <> None -> Forall (len_is s) vs).
+
+Lemma Forall_snoc {A} (P : A -> Prop) l x : Forall P l -> P x -> Forall P (l ++ [x]).
+Proof. intros H1 H2. apply Forall_app. split; auto. Qed.
+
+Lemma seen_event_inv k e cur flag vs rc total :
+  SInv cur flag vs -> (flag = None -> vs = repeat VNull (length vs)) ->
+  rc = N.of_nat (length vs) -> rc <= total -> flag <> Some true ->
+  SInv (seen_event k rc total e flag cur) (snd (col_event card k rc e (empty_cw, flag))) (vs ++ [fget k e]).
+Proof.
+  intros [H1 H2] Hnull Hrc Htot Hfl. unfold seen_event, col_event, fget, seen_field. cbn [fst snd].
+  destruct (get k e) as [v|]; cbn [snd].
+  - split; [discriminate|]. intros s Hs Hcons _. inversion Hs as [Hs']. clear Hs.
+    destruct flag as [b|].
+    + (* the column is in the block already *)
+      destruct (seen_val_mono _ _ _ _ Hs' Hcons) as [[Hc|Hc] Hl]; [exfalso; apply H1; [discriminate|exact Hc]|].
+      apply Forall_snoc; [apply (H2 s Hc Hcons); discriminate | exact Hl].
+    + destruct (rc =? 0) eqn:E0; cbn [negb] in Hs'.
+      * apply N.eqb_eq in E0. assert (length vs = 0%nat) by lia. destruct vs; [|discriminate].
+        destruct (seen_val_mono _ _ _ _ Hs' Hcons) as [_ Hl]. constructor; [exact Hl | constructor].
+      * (* first appearance in the middle of the block: back-filled nulls, then the value *)
+        apply N.eqb_neq in E0.
+        destruct (seen_val_mono _ _ _ _ Hs' Hcons) as [[Hc|Hc] Hl]; [discriminate|].
+        inversion Hc as [Hc']. assert (Hcons1 : seen_val cur 1 total <> INCONSISTENT) by (rewrite Hc'; exact Hcons).
+        destruct (seen_val_mono _ _ _ _ Hc' Hcons) as [_ H1s].
+        rewrite (Hnull eq_refl). apply Forall_snoc; [|exact Hl].
+        apply Forall_forall. intros x Hx. apply repeat_spec in Hx. subst x. exact H1s.
+  - destruct flag as [[|]|]; cbn [snd].
+    + congruence.
+    + split; [discriminate|]. intros s Hs Hcons _. inversion Hs as [Hs']. clear Hs.
+      destruct (seen_val_mono _ _ _ _ Hs' Hcons) as [[Hc|Hc] Hl]; [exfalso; apply H1; [discriminate|exact Hc]|].
+      apply Forall_snoc; [apply (H2 s Hc Hcons); discriminate | exact Hl].
+    + split; [congruence|]. intros s _ _ Hf. congruence.
+Qed.
+
+End Seen.
